@@ -31,6 +31,12 @@ theorem C16_buggy_witness :
 theorem C16_variant_is_copies :
     ∀ s ∈ Generated.responseStores, s.1 = b!"cmd/webhook/server" → Expected.freshOrigins.contains s.2.2.2 = true := by decide
 
+/-- tie obligation (F9): the webhook server package writes no state that outlives a request — no store through a method
+    receiver, no package-level map / pool / cache, no sync or atomic mutator on such state — so nothing one review leaves
+    behind can reach another review's answer -/
+theorem C16_handler_keeps_no_state :
+    Generated.stateWrites.filter (fun w => w.1 = b!"cmd/webhook/server") = [] := by decide
+
 /-- **Malformed requests** are answered with an HTTP error status and never reach the admission library: empty body,
     3 MiB or more, a content type other than application/json, undecodable, not a v1 AdmissionReview, no request. -/
 theorem C16_malformed (maxSize size : Nat) (empty : Bool) (ct : Str) (decodes v1review hasRequest : Bool)
@@ -52,6 +58,7 @@ theorem C16_limit : Generated.maxRequestSize = 3 * 1024 * 1024 := by decide
 #print axioms C16_initial_good
 #print axioms C16_buggy_witness
 #print axioms C16_variant_is_copies
+#print axioms C16_handler_keeps_no_state
 #print axioms C16_malformed
 #print axioms C16_wellformed
 #print axioms C16_limit
